@@ -1,3 +1,5 @@
-import Flowdyn.Model.FVM1D
-namespace Flowdyn.C01
-end Flowdyn.C01
+/-
+C01 — discrete conservation of every conserved variable.
+Part a: 1D pipeline (telescoping balance, periodic ends, sources, slip walls) and explicit integrators.
+-/
+import Flowdyn.Props.C01a
